@@ -30,7 +30,9 @@ JUNK = [b"", b" ", b"\t", b"foo", b"on", b"off", b"ON n0", b"On n0", b"status", 
         b"device", b"device n0", b"devicen0", b"temp", b"beacon", b"flash", b"unflash n0", b"quitx", b"telemetry", b"exprange", b"\xff\xfe\x00on n0",
         b"on n0\x00junk", b"on \x01", b"cycle n[", b"on n[5-1]", b"on n[0-18446744073709551615]", b"on n[0-99999]", b"on n[1-3]]", b"on [", b"on ]", b"on ,",
         b"on n0,,n1", b"on n[1,2", b"off n[a-b]", b"reset n[-1]", b"on n[1--2]", b"status n[00000000000000000001-2]", b"on " + b"x" * 1100,
-        b"on n[" + b",".join(b"%d" % i for i in range(300)) + b"]", b"on " + b"n" * 70 + b"1", b"on n0 n1", b"  on   n0  ", b"on\tn0", b"on\rn0"]
+        b"on n[" + b",".join(b"%d" % i for i in range(300)) + b"]", b"on " + b"n" * 70 + b"1", b"on n0 n1", b"  on   n0  ", b"on\tn0", b"on\rn0",
+        # F33 (196f55e): a range ending at ULONG_MAX used to wedge the daemon
+        b"on t[18446744073709551615]x", b"on n[18446744073709551615]", b"status n[18446744073709551614-18446744073709551615]", b"off n18446744073709551615"]
 
 
 def gen_session(rng, cfg):
@@ -39,11 +41,20 @@ def gen_session(rng, cfg):
     ops = ["CONN"]
     ncli = 1
     gone = set()
+    dropped = set()
     for _ in range(rng.randint(4, 25)):
         k = rng.randrange(ncli)
+        if k in dropped:
+            # the client record is gone: only callbacks of the actions it left behind can still arrive
+            r = rng.random()
+            if r < 0.5: ops.append("DONE1 %d %d %s" % (k, rng.choice([0, 0, 1, 2]), "64303a206661696c6564"))
+            elif r < 0.8: ops.append(rng.choice(["TELE", "DIAG"]) + " %d %s" % (k, "6f727068616e"))
+            continue
         if k in gone:
             continue
         r = rng.random()
+        if r < 0.04:
+            ops.append("DROP %d" % k); dropped.add(k); continue
         if r < 0.08 and ncli < 4:
             ops.append("CONN"); ncli += 1
         elif r < 0.55:
@@ -67,6 +78,12 @@ def gen_session(rng, cfg):
             ops.append("BYTES %d %s" % (k, (line + rng.choice(["\r\n", "\n", "\r\n", " \r\n"])).encode().hex()))
         elif r < 0.67:
             j = rng.choice(JUNK)
+            if rng.random() < 0.05:
+                # the length gate: strlen(str) = CP_LINEMAX - 1 / CP_LINEMAX / CP_LINEMAX + 1 (and the same with surrounding blanks, which are stripped first)
+                n = rng.choice([131071, 131072, 131073])
+                j = rng.choice([b"on ", b"status ", b"xx "]) + b"x" * (n - 3)
+                j = j[:n] if not j.startswith(b"status") else (b"status " + b"x" * (n - 7))
+                if rng.random() < 0.3: j = b"  " + j + b" "
             if b"\n" in j: continue
             if j.lower().startswith(b"quit"): gone.add(k)
             ops.append("BYTES %d %s" % (k, (j + b"\r\n").hex()))
@@ -88,6 +105,8 @@ def gen_session(rng, cfg):
         else:
             ops.append("DONEALL %d %s %s" % (k, rng.choice(["0", "0", "0", "01", "1", "20", "3", "4"]), "64313a206572726f72"))
     for k in range(ncli):
+        if k in dropped:
+            ops.append("DONE1 %d 0 2d" % k); continue
         ops.append("DONEALL %d 0 2d" % k)
         if rng.random() < 0.5 and k not in gone:
             ops.append("BYTES %d %s" % (k, b"quit\r\n".hex()))
@@ -158,6 +177,27 @@ def protocol_monitor(out_bytes, nlines_sent):
     return bad, terminals
 
 
+def proto_ops(impl_out):
+    """PROTO <client> <hex of everything the implementation wrote to that client>"""
+    streams = {}
+    for l in impl_out.splitlines():
+        if l.startswith("OUT "):
+            _, k, hx = l.split()
+            streams[k] = streams.get(k, "") + hx
+    return ["PROTO %s %s" % (k, hx) for k, hx in sorted(streams.items())]
+
+
+def lines_sent(ops):
+    """complete lines delivered to each client (BYTES ops before its DROP), and the set of dropped clients"""
+    sent, dropped = {}, set()
+    for op in ops:
+        w = op.split()
+        if w[0] == "DROP": dropped.add(int(w[1]))
+        elif w[0] == "BYTES" and int(w[1]) not in dropped:
+            sent[int(w[1])] = sent.get(int(w[1]), 0) + bytes.fromhex(w[2]).count(b"\n")
+    return sent, dropped
+
+
 def run(ctx, V):
     import pmcheck
     proofs_ok = vlib.proof_gate(ctx, V, extract=["Extract/ExClient.vo", "Extract/ExEnqueue.vo"])
@@ -225,11 +265,12 @@ def correspond(ctx, V, n):
         outs = list(ex.map(lambda ic: (run_impl(cli, ctx.scratch, ic[0], ic[1][0], ic[1][1]),
                                        vlib.sh(["timeout", "-s", "KILL", "30", enq, os.path.join(ctx.scratch, "cli%d.conf" % ic[0])], shell=False, inp=b"", timeout=40, env={"ASAN_OPTIONS": "detect_leaks=0"})),
                            enumerate(cases)))
-        minputs = ["\n".join(defs_for_model(cfg, o, eo, version) + ops) + "\n" for (cfg, ops), ((rc, o, e), (rc2, eo, e2)) in zip(cases, outs)]
+        minputs = ["\n".join(defs_for_model(cfg, o, eo, version) + ops + proto_ops(o)) + "\n" for (cfg, ops), ((rc, o, e), (rc2, eo, e2)) in zip(cases, outs)]
         mouts = list(ex.map(lambda s: vlib.sh(["timeout", "-s", "KILL", "60", model], shell=False, inp=s.encode(), timeout=70), minputs))
     for (cfg, ops), ((rc, o, e), _), (mrc, mo, me) in zip(cases, outs, mouts):
         il = [l for l in o.splitlines() if not l.startswith("NODES ")]
-        ml = mo.splitlines()
+        ml = [l for l in mo.splitlines() if not l.startswith("PROTO ")]
+        verdicts = {l.split()[1]: dict(x.split("=") for x in l.split()[2:]) for l in mo.splitlines() if l.startswith("PROTO ")}
         V.case((cfg.text(), tuple(ops)), nontrivial=any(l.startswith("QUEUED") for l in il))
         V.count("ops", len(ops))
         # per-client output streams of the implementation
@@ -243,11 +284,27 @@ def correspond(ctx, V, n):
         if rc != 0:
             V.violation("daemon-dies", "client-layer rc=%d" % rc, dict(config=cfg.text(), ops=ops, stderr=e[-800:]), "client input / completion history kills the client layer")
             continue
+        sent, dropped_k = lines_sent(ops)
         for k, sbytes in streams.items():
             r = protocol_monitor(sbytes, 0)
             bad = r if isinstance(r, list) else r[0]
             for b in bad:
                 V.violation("protocol", "client-stream", dict(config=cfg.text(), ops=ops, client=k, stream=sbytes.decode("latin-1")[-600:]), b)
+            # the extracted recogniser Spec/Proto.ok on the IMPLEMENTATION's stream (every write of the harness is whole lines)
+            v = verdicts.get(k)
+            if mrc == 0 and v is not None:
+                V.count("proto:ok=%s,rest=%s" % (v["ok"], v["rest"]))
+                if v["ok"] != "true":
+                    V.violation("protocol", "client-stream", dict(config=cfg.text(), ops=ops, client=k, stream=sbytes.decode("latin-1")[-600:]),
+                                "Spec.Proto.ok rejects the stream of client %s (prefix=%s)" % (k, v["prefix"]))
+                elif int(k) not in dropped_k:
+                    # every session ends with all commands completed: nothing may be left open, one terminal line per line sent
+                    if v["rest"] != "true":
+                        V.violation("protocol", "reply-left-open", dict(config=cfg.text(), ops=ops, client=k, stream=sbytes.decode("latin-1")[-600:]),
+                                    "client %s: the stream ends inside a reply although no command is pending" % k)
+                    if int(v["terminals"]) != sent.get(int(k), 0):
+                        V.violation("one-reply", "count", dict(config=cfg.text(), ops=ops, client=k, stream=sbytes.decode("latin-1")[-600:]),
+                                    "client %s sent %d lines and got %s terminal lines" % (k, sent.get(int(k), 0), v["terminals"]))
         if mrc != 0:
             V.tie_broken("correspondence", "R-CLIENT", "model driver failed: " + me[-600:], case=dict(config=cfg.text(), ops=ops)); continue
         if il != ml:
